@@ -114,7 +114,7 @@ theorem headerLine_width (token : Str) (ht : token ∈ usedTokens) (iw : Nat) (v
 theorem formatRow_width (cw : Char → Nat) (hcw : ∀ c, Printable c → cw c = 1) (hbox : ∀ c ∈ boxChars, cw c = 1)
     (strict : Bool) :
     ∀ (row : List Cell) (ws : List Nat), (∀ c ∈ row, CellAscii c) → (∀ w ∈ ws, 1 ≤ w) → row.length = ws.length →
-      ∃ cells, formatRow cw strict row ws = .ok cells ∧ Cols cells ws ∧ ∀ x ∈ cells, OkStr x
+      ∃ cells, formatRow specArith cw strict row ws = .ok cells ∧ Cols cells ws ∧ ∀ x ∈ cells, OkStr x
   | [], [], _, _, _ => ⟨[], rfl, .nil, by simp⟩
   | c :: cs, w :: ws, hc, hw, hlen => by
     obtain ⟨s, hs, hW, hO⟩ := formatCell_width cw hcw hbox strict c w (hc c (by simp)) (hw w (by simp))
@@ -131,8 +131,9 @@ theorem formatRow_width (cw : Char → Nat) (hcw : ∀ c, Printable c → cw c =
 /-- a data line whose label fits the index column -/
 theorem dataLine_width (iw label : Nat) (cells : List Str) (ws : List Nat) (hF : Cols cells ws)
     (hO : ∀ x ∈ cells, OkStr x) (hlab : (natStr label).length + 1 ≤ iw) :
-    W (dataLine iw label cells) (tableWidth iw ws) ∧ OkStr (dataLine iw label cells) := by
+    W (dataLine specArith iw label cells) (tableWidth iw ws) ∧ OkStr (dataLine specArith iw label cells) := by
   unfold dataLine tableWidth
+  simp only [spec_labelPad]
   have hT : W T_TYPE 0 := W_tok (by simp [usedTokens])
   have hOff : W T_OFF 0 := W_tok (by simp [usedTokens])
   have hlabel : W (rjust (iw - 1) (natStr label)) (iw - 1) := by
@@ -158,7 +159,7 @@ namespace Display
 variable {α : Type}
 
 theorem visibleRows_closed (rows : List α) (limit : Nat) (tt lazy : Bool) (hl : 0 < limit) :
-    visibleRows rows limit tt lazy =
+    visibleRows specArith rows limit tt lazy =
       if tt = true then
         (if 2 * limit < rows.length then
           labelFrom 1 (rows.take limit) ++ [Line.ellipsis]
@@ -168,24 +169,23 @@ theorem visibleRows_closed (rows : List α) (limit : Nat) (tt lazy : Bool) (hl :
   cases tt with
   | false =>
     cases lazy with
-    | false => simpa [visibleRows] using eagerLines_head rows limit true hl
+    | false => simpa [visibleRows] using eagerLines_head rows limit hl
     | true => simpa [visibleRows] using lazyLines_head rows limit hl
   | true =>
     cases lazy with
     | true => simpa [visibleRows] using lazyLines_tt rows limit hl
     | false =>
       by_cases hn : 2 * limit < rows.length
-      · have h := eagerLines_split rows limit true hl hn
-        simp only [if_true] at h
+      · have h := eagerLines_split rows limit hl hn
         have e : limit + (rows.length - 2 * limit) + 1 = rows.length - limit + 1 := by omega
         rw [e] at h
         simpa [visibleRows, hn] using h
-      · simpa [visibleRows, hn] using eagerLines_small rows limit true hl (by omega)
+      · simpa [visibleRows, hn] using eagerLines_small rows limit hl (by omega)
 
 /-- every data line shows a row of the frame under a label between 1 and `n` (and at most
 `min limit n` in head-only mode) -/
 theorem visibleRows_data (rows : List α) (limit : Nat) (tt lazy : Bool) (hl : 0 < limit) (label : Nat) (row : α)
-    (h : Line.data label row ∈ visibleRows rows limit tt lazy) :
+    (h : Line.data label row ∈ visibleRows specArith rows limit tt lazy) :
     row ∈ rows ∧ label ≤ rows.length ∧ (tt = false → label ≤ min limit rows.length) := by
   rw [visibleRows_closed rows limit tt lazy hl] at h
   cases tt with
@@ -224,21 +224,21 @@ theorem natStr_len_mono {a b : Nat} (h : a ≤ b) : (natStr a).length ≤ (natSt
 
 /-- the label of every data line fits the index column -/
 theorem label_fits (rows : List α) (limit : Nat) (tt lazy : Bool) (hl : 0 < limit) (label : Nat) (row : α)
-    (h : Line.data label row ∈ visibleRows rows limit tt lazy) :
-    (natStr label).length + 1 ≤ indexWidth rows.length limit tt lazy rows := by
+    (h : Line.data label row ∈ visibleRows specArith rows limit tt lazy) :
+    (natStr label).length + 1 ≤ indexWidth specArith rows.length limit tt lazy rows := by
   obtain ⟨_, hle, hhead⟩ := visibleRows_data rows limit tt lazy hl label row h
   unfold indexWidth
   cases lazy with
-  | false => simp only [Bool.false_eq_true, if_false]; have := natStr_len_mono hle; omega
+  | false => simp only [Bool.false_eq_true, if_false, spec_idxEager]; have := natStr_len_mono hle; omega
   | true =>
-    simp only [if_true]
-    suffices hb : label ≤ (lazySelect rows limit tt).2 + 1 by have := natStr_len_mono hb; omega
+    simp only [if_true, spec_idxLazy]
+    suffices hb : label ≤ (lazySelect specArith rows limit tt).2 + 1 by have := natStr_len_mono hb; omega
     cases tt with
     | false =>
       have := hhead rfl
       simp only [lazySelect]
       rw [if_pos ⟨hl, trivial⟩]
-      simp only [List.length_take]; omega
+      simp only [List.length_take, spec_lazyHeadOnly]; omega
     | true =>
       rw [lazySelect_tt rows limit hl]
       simp only [List.length_drop, List.length_take]
@@ -253,12 +253,12 @@ theorem dataWidth_ge (col : List Cell) : 4 ≤ dataWidth col := by
 
 theorem colWidthsGo_spec (showTypes : Bool) (maxCol : Nat) (t : List (List Cell)) (hm : 1 ≤ maxCol) :
     ∀ (i : Nat) (ns tys : List Str), ns.length = tys.length →
-      (colWidthsGo showTypes maxCol t i ns tys).length = ns.length
-      ∧ ∀ w ∈ colWidthsGo showTypes maxCol t i ns tys, 1 ≤ w
+      (colWidthsGo specArith showTypes maxCol t i ns tys).length = ns.length
+      ∧ ∀ w ∈ colWidthsGo specArith showTypes maxCol t i ns tys, 1 ≤ w
   | _, [], [], _ => by simp [colWidthsGo]
   | i, n :: ns, ty :: tys, h => by
     have ih := colWidthsGo_spec showTypes maxCol t hm (i + 1) ns tys (by simpa using h)
-    simp only [colWidthsGo, List.length_cons, ih.1, List.mem_cons, true_and]
+    simp only [colWidthsGo, spec_colWidth, List.length_cons, ih.1, List.mem_cons, true_and]
     rintro w (rfl | hw)
     · have := dataWidth_ge (column t i); omega
     · exact ih.2 w hw
@@ -270,7 +270,7 @@ theorem bodyLines_width (cw : Char → Nat) (hcw : ∀ c, Printable c → cw c =
     ∀ (ls : List (Line (List Cell))),
       (∀ label row, Line.data label row ∈ ls →
         (natStr label).length + 1 ≤ iw ∧ row.length = ws.length ∧ ∀ c ∈ row, CellAscii c) →
-      ∃ out, bodyLines cw p iw ws ls = .ok out
+      ∃ out, bodyLines specArith cw p iw ws ls = .ok out
         ∧ ∀ l ∈ out, l.1 = true → W l.2 (tableWidth iw ws) ∧ OkStr l.2
   | [], _ => ⟨[], rfl, by simp⟩
   | .ellipsis :: rest, h => by
@@ -284,10 +284,151 @@ theorem bodyLines_width (cw : Char → Nat) (hcw : ∀ c, Printable c → cw c =
     obtain ⟨out, ho, hW⟩ := bodyLines_width cw hcw hbox p iw ws hws rest (fun l r hm => h l r (by simp [hm]))
     obtain ⟨hlab, hlen, hcells⟩ := h label row (by simp)
     obtain ⟨cells, hc, hF, hO⟩ := formatRow_width cw hcw hbox p.strict row ws hcells hws hlen
-    refine ⟨(true, dataLine iw label cells) :: out, by simp [bodyLines, ho, hc], ?_⟩
+    refine ⟨(true, dataLine specArith iw label cells) :: out, by simp [bodyLines, ho, hc], ?_⟩
     intro l hl hb
     rcases List.mem_cons.mp hl with rfl | hl
     · exact dataLine_width iw label cells ws hF hO hlab
     · exact hW l hl hb
+
+end Display
+
+namespace Display
+
+
+
+/-- A frame with printable-ASCII content: as many type names as column names, rectangular rows,
+every name, type name, text parameter and byte printable ASCII (0x20–0x7E). -/
+structure FrameAscii (f : Frame) : Prop where
+  types_len : f.names.length = f.types.length
+  rect : ∀ r ∈ f.rows, r.length = f.names.length
+  names : ∀ s ∈ f.names, PStr s
+  types : ∀ s ∈ f.types, PStr s
+  cells : ∀ r ∈ f.rows, ∀ c ∈ r, CellAscii c
+
+/-- **All box lines have equal printed width.**  For printable-ASCII content, `limit ≥ 1`,
+`max_column_width ≥ 1`, any width table `cw` that gives printable ASCII and the box characters
+width 1: rendering succeeds (either decode mode) and every box line yielded by `_inner()` — borders,
+header, type row, every data row of either mode, eager or lazy — prints exactly
+`tableWidth = 1 + index width + 2 + Σ column widths + 3·(columns−1) + 2` characters, with no colour
+token or escape left open.  (`pwidth` counts characters outside `\x01…m` / `\x1b…m`.) -/
+theorem box_lines_equal_width_spec (cw : Char → Nat) (hcw : ∀ c, Printable c → cw c = 1)
+    (hbox : ∀ c ∈ boxChars, cw c = 1) (p : Params) (f : Frame) (hf : FrameAscii f)
+    (hl : 1 ≤ p.limit) (hm : 1 ≤ p.maxCol) :
+    ∃ lines, rawLines specArith cw p f = .ok lines
+      ∧ ∀ l ∈ lines, l.1 = true →
+          pwidth l.2 = tableWidth (idxWidth specArith p f) (colWidths specArith p f) ∧ scan false l.2 = (pwidth l.2, false)
+            ∧ OkStr l.2 := by
+  have hcw' := colWidthsGo_spec p.showTypes p.maxCol (cutRows specArith f.rows p.limit p.tt p.lazy) hm 0 f.names f.types
+    hf.types_len
+  have hwlen : (colWidths specArith p f).length = f.names.length := hcw'.1
+  have hws : ∀ w ∈ colWidths specArith p f, 1 ≤ w := hcw'.2
+  obtain ⟨body, hb, hW⟩ := bodyLines_width cw hcw hbox p (idxWidth specArith p f) (colWidths specArith p f) hws
+    (visibleRows specArith f.rows p.limit p.tt p.lazy) (by
+      intro label row hmem
+      obtain ⟨hrow, _, _⟩ := visibleRows_data f.rows p.limit p.tt p.lazy hl label row hmem
+      exact ⟨label_fits f.rows p.limit p.tt p.lazy hl label row hmem, by rw [hf.rect row hrow, hwlen],
+        hf.cells row hrow⟩)
+  have conv : ∀ {s : Str} {w : Nat}, W s w → OkStr s →
+      pwidth s = w ∧ scan false s = (pwidth s, false) ∧ OkStr s := by
+    intro s w h ho
+    unfold W at h
+    exact ⟨by simp [pwidth, h], by simp [pwidth, h], ho⟩
+  have okb : ∀ c ∈ boxChars, Ok c := fun c hc => Or.inr (Or.inr hc)
+  have hbord : ∀ (l m r fill : Char), l ∈ boxChars → m ∈ boxChars → r ∈ boxChars → fill ∈ boxChars →
+      W (border l m r fill (idxWidth specArith p f) (colWidths specArith p f)) (tableWidth (idxWidth specArith p f) (colWidths specArith p f))
+      ∧ OkStr (border l m r fill (idxWidth specArith p f) (colWidths specArith p f)) := by
+    intro l m r fill h1 h2 h3 h4
+    exact ⟨border_width l m r fill _ _ (box_facts l h1).1 (box_facts m h2).1 (box_facts r h3).1 (box_facts fill h4).1,
+      border_ok l m r fill _ _ (okb l h1) (okb m h2) (okb r h3) (okb fill h4)⟩
+  have hhead := headerLine_width T_HEAD (by simp [usedTokens]) (idxWidth specArith p f) f.names (colWidths specArith p f) hf.names
+    hwlen.symm
+  have htype := headerLine_width T_TYPE (by simp [usedTokens]) (idxWidth specArith p f) f.types (colWidths specArith p f) hf.types
+    (by rw [hwlen, hf.types_len])
+  refine ⟨_, by simp only [rawLines, hb]; rfl, ?_⟩
+  intro l hl hbx
+  simp only [List.mem_append, List.mem_cons, List.not_mem_nil, or_false] at hl
+  rcases hl with ((((rfl | rfl) | hl) | rfl) | hl) | rfl
+  · have := hbord '┌' '┬' '┐' '─' (by decide) (by decide) (by decide) (by decide); exact conv this.1 this.2
+  · exact conv hhead.1 hhead.2
+  · split at hl
+    · simp only [List.mem_cons, List.not_mem_nil, or_false] at hl; subst hl; exact conv htype.1 htype.2
+    · simp at hl
+  · have := hbord '╞' '╪' '╡' '═' (by decide) (by decide) (by decide) (by decide); exact conv this.1 this.2
+  · have := hW l hl hbx; exact conv this.1 this.2
+  · have := hbord '└' '┴' '┘' '─' (by decide) (by decide) (by decide) (by decide); exact conv this.1 this.2
+
+/-- **…within the display width.**  After the final `trunc_printable(line, display_width, False)`
+every box line prints exactly `min tableWidth display_width` characters (`display_width ≥ 1`): all
+box lines still have equal printed width, and it never exceeds the display width. -/
+theorem within_display_width_spec (cw : Char → Nat) (hcw : ∀ c, Printable c → cw c = 1)
+    (hbox : ∀ c ∈ boxChars, cw c = 1) (p : Params) (f : Frame) (hf : FrameAscii f)
+    (hl : 1 ≤ p.limit) (hm : 1 ≤ p.maxCol) (hd : 1 ≤ p.displayWidth) :
+    ∃ lines, renderLines specArith cw p f = .ok lines
+      ∧ ∀ l ∈ lines, l.1 = true →
+          pwidth l.2 = min (tableWidth (idxWidth specArith p f) (colWidths specArith p f)) p.displayWidth
+          ∧ pwidth l.2 ≤ p.displayWidth := by
+  obtain ⟨raw, hr, hW⟩ := box_lines_equal_width_spec cw hcw hbox p f hf hl hm
+  refine ⟨_, by simp only [renderLines, hr]; rfl, ?_⟩
+  intro l hl hbx
+  simp only [List.mem_map] at hl
+  obtain ⟨l0, hl0, rfl⟩ := hl
+  obtain ⟨hw, _, hok⟩ := hW l0 hl0 hbx
+  have hgood : ∀ c ∈ l0.2, Good cw c := fun c hc => ok_good cw hcw hbox (hok c hc)
+  have := truncGo_line cw p.displayWidth l0.2 hgood 0 false (by omega)
+  have e : pwidth (truncPrintable specArith cw l0.2 p.displayWidth false) = min (pwidth l0.2) p.displayWidth := by
+    simp [pwidth, truncPrintable, this]
+  simp only [e, hw]
+  exact ⟨trivial, Nat.min_le_right _ _⟩
+
+/-- `trunc_printable` in general (any text without line breaks whose visible characters have width 1,
+whatever escapes it contains, well-formed or not): the cut line prints `min (its width) width`. -/
+theorem trunc_line_width_spec (cw : Char → Nat) (width : Nat) (l : Str) (hl : ∀ c ∈ l, Good cw c) (hw : 1 ≤ width) :
+    pwidth (truncPrintable specArith cw l width false) = min (pwidth l) width := by
+  have := truncGo_line cw width l hl 0 false (by omega)
+  simp [pwidth, truncPrintable, this]
+
+
+
+
+/-- **The formatter is total over the modelled cell kinds** (repaired code, `errors="replace"`): for
+every cell of every kind — bytes of any content included — and every width, `type_formatter` returns
+text; and a whole table renders whenever no cell fails. -/
+theorem formatter_total_any (A : Arith) (cw : Char → Nat) (c : Cell) (w : Nat) : ∃ s, formatCell A cw false c w = .ok s := by
+  cases c with
+  | bytes b n =>
+    obtain ⟨s, hs⟩ := utf8Go_total (b.length + 1) b
+    exact ⟨T_BLOB ++ truncPrintable A cw (ljust w s) w true ++ T_OFF, by simp [formatCell, utf8Decode, hs]⟩
+  | _ => exact ⟨_, rfl⟩
+
+/-- Every table renders (replace mode), whatever the cells, names, types and parameters. -/
+theorem render_total_any (A : Arith) (cw : Char → Nat) (p : Params) (f : Frame) (hp : p.strict = false) :
+    ∃ lines, renderLines A cw p f = .ok lines := by
+  have hrow : ∀ (row : List Cell) (ws : List Nat), ∃ cells, formatRow A cw false row ws = .ok cells := by
+    intro row
+    induction row with
+    | nil => intro ws; exact ⟨[], by simp [formatRow]⟩
+    | cons c cs ih =>
+      intro ws
+      cases ws with
+      | nil => exact ⟨[], by simp [formatRow]⟩
+      | cons w ws =>
+        obtain ⟨s, hs⟩ := formatter_total_any A cw c w
+        obtain ⟨rest, hr⟩ := ih ws
+        exact ⟨s :: rest, by simp [formatRow, hs, hr]⟩
+  have hbody : ∀ (iw : Nat) (ws : List Nat) (ls : List (Line (List Cell))),
+      ∃ out, bodyLines A cw p iw ws ls = .ok out := by
+    intro iw ws ls
+    induction ls with
+    | nil => exact ⟨[], rfl⟩
+    | cons l rest ih =>
+      obtain ⟨out, ho⟩ := ih
+      cases l with
+      | ellipsis => exact ⟨(false, ellipsisLine p.lazy) :: out, by simp [bodyLines, ho]⟩
+      | data label row =>
+        obtain ⟨cells, hc⟩ := hrow row ws
+        exact ⟨(true, dataLine A iw label cells) :: out, by simp [bodyLines, ho, hp, hc]⟩
+  obtain ⟨body, hb⟩ := hbody (idxWidth A p f) (colWidths A p f) (visibleRows A f.rows p.limit p.tt p.lazy)
+  exact ⟨_, by simp only [renderLines, rawLines, hb]; rfl⟩
+
 
 end Display
